@@ -47,6 +47,9 @@ PROGRAMS = ["assemble", "call", "call-exact", "call-pedigree"]
 MCMC = ["--mcmc-steps", "120", "--mcmc-burn", "60"]
 # seed 0 is the hostile value (falsy); every comparison family is run with it and with a non-zero seed
 SEEDS = (0, 7)
+HAP_INFO_DEFS = [{"ID": "AFP", "Number": "R", "Type": "Float"}, {"ID": "REFMASKED", "Number": "0", "Type": "Flag"}]
+# option sets of the calling programs under which the order / subset / history comparisons are repeated
+CALL_VARIANTS = [[], ["--filter-input-haplotypes", "AFP>=0.1"], ["--prior-frequencies", "AFP"]]
 WATCHDOG = 600
 
 
@@ -77,7 +80,7 @@ def required(tier):
             "inproc_permuted_runs": 2, "inproc_subset_runs": 4, "history_variants_compared": 12, "fault_runs": 10,
             "fault_positions_covered": 5, "fault_runs_multicore": 5, "injected_fault_runs": 3,
             "fault_runs_failing_block_finishes_last": 8, "fault_runs_single_locus_multicore": 1,
-            "split_grid_pairs": 600, "split_records_compared": 15000, "split_assemble_pairs": 40}
+            "split_grid_pairs": 600, "split_records_compared": 15000, "split_assemble_pairs": 40, "inproc_option_variants": 4}
 
 
 def coverage_extra(tier, col):
@@ -105,9 +108,20 @@ def build(seed, ds_id, tag, bad_locus=None, depth=(8, 16)):
                 sq = datasets.hap_sequence(ds.contigs, L, hap, L["start"], L["stop"])
                 if sq != ref and sq not in alts:
                     alts.append(sq)
-        recs.append({"contig": L["contig"], "pos0": L["start"], "id": L["name"], "ref": ref, "alts": alts[:5]})
+        alts = alts[: 1 + len(recs) % 3]      # allele counts repeat between records (state shared per allele count would show)
+        r = {"contig": L["contig"], "pos0": L["start"], "id": L["name"], "ref": ref, "alts": alts}
+        # INFO the optional filters / priors can use; every third record has its reference masked on input
+        w = np.round(rng.dirichlet(np.ones(1 + len(alts))), 3)
+        if len(alts) >= 2 and rng.random() < 0.3:
+            w[int(rng.integers(1, len(w)))] = 0.0
+        if w.sum() <= 0:
+            w[0] = 1.0
+        r["info"] = {"AFP": ",".join(repr(float(x)) for x in w)}
+        if len(recs) % 3 == 1 and alts:
+            r["info"]["REFMASKED"] = True
+        recs.append(r)
     ds.hap_records = recs
-    ds.hapvcf = hapvcf.write(os.path.join(root, "haps.vcf"), hapvcf.render(ds.contigs, recs))
+    ds.hapvcf = hapvcf.write(os.path.join(root, "haps.vcf"), hapvcf.render(ds.contigs, recs, info_defs=HAP_INFO_DEFS))
     # files
     with open(os.path.join(root, "ploidy.txt"), "w") as fh:
         for s in ds.samples:
@@ -249,12 +263,21 @@ def run_inproc(tier, seed, spec, col):
             s += np.random.random()
         return s
 
-    for prog, mseed in [(p, m) for p in spec["programs"] for m in SEEDS]:
-        if prog == "call-exact" and mseed != SEEDS[0]:
-            continue
-        rep = {"dataset": spec["dataset"], "program": prog, "seed": seed, "mcmc_seed": mseed}
+    combos = []
+    for p in spec["programs"]:
+        if p == "assemble":
+            combos += [(p, m, []) for m in SEEDS]
+        else:
+            # the calling programs: plain, with an input filter that masks / removes alleles, with prior frequencies
+            combos += [(p, SEEDS[k % 2], v) for k, v in enumerate(CALL_VARIANTS)]
+            if p != "call-exact":
+                combos.append((p, SEEDS[1], []))
+    for prog, mseed, variant in combos:
+        rep = {"dataset": spec["dataset"], "program": prog, "seed": seed, "mcmc_seed": mseed, "options": variant}
         col.add_to_set("mcmc_seeds", mseed)
-        AV = functools.partial(argv_for, mseed=mseed)
+        if variant:
+            col.count("inproc_option_variants")
+        AV = functools.partial(argv_for, mseed=mseed, extra=tuple(variant))
         out1, e1 = cli.run_inproc(AV(ds, prog))
         np.random.random(17)
         burn_numba(13)
@@ -285,7 +308,7 @@ def run_inproc(tier, seed, spec, col):
                 idxs = order
             else:
                 sub = os.path.join(ds.root, "sub%d.vcf" % trial)
-                hp = hapvcf.write(sub, hapvcf.render(ds.contigs, [ds.hap_records[i] for i in keep]))
+                hp = hapvcf.write(sub, hapvcf.render(ds.contigs, [ds.hap_records[i] for i in keep], info_defs=HAP_INFO_DEFS))
                 out3, e3 = cli.run_inproc(AV(ds, prog, hap=hp))
                 idxs = keep
             col.count("inproc_subset_runs")
